@@ -120,6 +120,8 @@ def cleanup_value(val):
     val = remove_ref_re.sub('', val)
     val = remove_href_re.sub('', val)
     val = val.replace('[', '').replace(']', '').replace('\'\'', '').strip()
+    # a double quote would end the value in the registry file
+    val = val.replace('"', '\'')
     val = val.split('|')[-1]
     # replace value
     val = val.replace('Unknown', '')
